@@ -43,6 +43,41 @@ static std::string insert_ws(const std::string& text, const std::vector<long lon
 	return r;
 }
 
+// The codecs are pure functions from the first instruction of the program on: results computed during static initialisation
+// (before main, in whatever order the translation units are initialised) are compared with the reference later.
+struct EarlyResults {
+	std::string dec, dec_ws, hexdec, enc, hex, url, urldec, sha;
+	EarlyResults()
+	{
+		dec = S(decodeBase64("aGVsbG8sIHdvcmxkIQ=="));
+		dec_ws = S(decodeBase64(String("aGVs\r\nbG8s IHdv\ncmxk IQ==")));
+		hexdec = S(decodeHex(String("00ff10Ab")));
+		enc = S(encodeBase64((const byte*)"hello, world!", 13));
+		hex = S(encodeHex((const byte*)"\x00\xff\x10\xab", 4));
+		url = S(Url::encode(String("a b&c=d/e?f"), true));
+		urldec = S(Url::decode(String("a%20b%26c%3Dd")));
+		SHA1::Hash h = SHA1::hash((const byte*)"abc", 3);
+		sha = std::string((const char*)(const byte*)h, 20);
+	}
+};
+static EarlyResults g_early;
+static void check_early()
+{
+	static bool done = false;
+	if (done)
+		return;
+	done = true;
+	VF_CHECK(g_early.dec == "hello, world!", "decodeBase64 called during static initialisation returned ", vf::show(g_early.dec));
+	VF_CHECK(g_early.dec_ws == "hello, world!", "decodeBase64 (text with whitespace) called during static initialisation returned ", vf::show(g_early.dec_ws));
+	VF_CHECK(g_early.hexdec == std::string("\x00\xff\x10\xab", 4), "decodeHex called during static initialisation returned ", vf::show(g_early.hexdec));
+	VF_CHECK(g_early.enc == "aGVsbG8sIHdvcmxkIQ==", "encodeBase64 called during static initialisation returned ", vf::show(g_early.enc));
+	VF_CHECK(g_early.hex == "00ff10ab", "encodeHex called during static initialisation returned ", vf::show(g_early.hex));
+	VF_CHECK(ref::pct_decode(g_early.url) == "a b&c=d/e?f", "Url::encode called during static initialisation returned ", vf::show(g_early.url));
+	VF_CHECK(g_early.urldec == "a b&c=d", "Url::decode called during static initialisation returned ", vf::show(g_early.urldec));
+	VF_CHECK(g_early.sha == ref::Sha1::hash("abc"), "SHA1::hash called during static initialisation returned ", ref::hex(g_early.sha));
+	vf::stats().cls("early.results_from_static_initialisation_checked");
+}
+
 static void op_b64(const vf::Op& o)
 {
 	const std::string& data = o.str(0);
@@ -300,6 +335,7 @@ static void op_pcth(const vf::Op& o)
 
 void vf_run_case(const std::string& part, const vf::Case& c)
 {
+	check_early();
 	if (part == "query") {
 		op_query(c);
 		return;
